@@ -305,6 +305,19 @@ type SchnorrResult[GE algebra.PrimeGroupElement[GE, S], S algebra.PrimeFieldElem
 	SigAlt      *schnorrlike.Signature[GE, S] // from a second, independent aggregator
 	AggStatus   string
 	VerifyOK    bool // the scheme's own single-party verifier accepted Sig
+	// Aggs: every aggregation path over the same partial signatures — for each quorum member the plain
+	// aggregator built from that member's own public material ("plain") and, in the round-by-round API
+	// where the cosigner is at hand, that member's cosigning (identifiable-abort) aggregator ("cosign").
+	Aggs []SchnorrAgg[GE, S]
+}
+
+// SchnorrAgg is the outcome of one Lindell22 aggregator instance.
+type SchnorrAgg[GE algebra.PrimeGroupElement[GE, S], S algebra.PrimeFieldElement[S]] struct {
+	Kind   string // "plain" | "cosign"
+	ID     ID     // whose public material / cosigner state
+	Sig    *schnorrlike.Signature[GE, S]
+	Bytes  []byte // Sig in the variant's canonical serialisation (nil when it cannot be serialised)
+	Status string // "ok" or the error class
 }
 
 func l22Shards[GE algebra.PrimeGroupElement[GE, S], S algebra.PrimeFieldElement[S]](base map[ID]*mpc.BaseShard[GE, S], quorum []ID) (map[ID]*lindell22.Shard[GE, S], error) {
@@ -362,6 +375,59 @@ func l22Aggregate[
 		}
 	}()
 	res.AggStatus = cls
+}
+
+// l22AggregateAll runs every aggregation path the package offers over res.Partials (see SchnorrResult.Aggs).
+func l22AggregateAll[
+	SCH mpcschnorr.MPCFriendlyScheme[VR, GE, S, M, KG, SG, VF],
+	VR mpcschnorr.MPCFriendlyVariant[GE, S, M],
+	GE algebra.PrimeGroupElement[GE, S], S algebra.PrimeFieldElement[S], M schnorrlike.Message,
+	KG schnorrlike.KeyGenerator[GE, S], SG schnorrlike.Signer[VR, GE, S, M], VF schnorrlike.Verifier[VR, GE, S, M],
+](res *SchnorrResult[GE, S], mkScheme func(io.Reader) (SCH, error), aggRng io.Reader, shards map[ID]*lindell22.Shard[GE, S], cosigners map[ID]*l22signing.Cosigner[GE, S, M], msg M) {
+	if res.Partials == nil {
+		return
+	}
+	one := func(kind string, id ID) {
+		out := SchnorrAgg[GE, S]{Kind: kind, ID: id, Status: "ok"}
+		func() {
+			defer func() {
+				if e := recover(); e != nil {
+					out.Status = "panic"
+				}
+			}()
+			scheme, err := mkScheme(aggRng)
+			if err != nil {
+				out.Status = "scheme-" + classify(err)
+				return
+			}
+			var agg *l22signing.Aggregator[VR, GE, S, M]
+			if kind == "cosign" {
+				agg, err = l22signing.NewCosigningAggregator(cosigners[id], shards[id].PublicKeyMaterial(), scheme)
+			} else {
+				agg, err = l22signing.NewAggregator(shards[id].PublicKeyMaterial(), scheme)
+			}
+			if err != nil {
+				out.Status = "new-" + classify(err)
+				return
+			}
+			sig, err := agg.Aggregate(hashmap.NewComparableFromNativeLike(res.Partials).Freeze(), msg)
+			if err != nil {
+				out.Status = classify(err)
+				return
+			}
+			out.Sig = sig
+			if b, err := scheme.Variant().SerializeSignature(sig); err == nil {
+				out.Bytes = b
+			}
+		}()
+		res.Aggs = append(res.Aggs, out)
+	}
+	for _, id := range sortedKeys(shards) {
+		one("plain", id)
+		if cosigners != nil && cosigners[id] != nil {
+			one("cosign", id)
+		}
+	}
 }
 
 // runLindell22 signs msg round by round (3 rounds) and aggregates.
@@ -423,6 +489,7 @@ func runLindell22[
 		}
 		res.Partials = out
 		l22Aggregate(res, mkScheme, aggRng, shards[ids[0]], msg)
+		l22AggregateAll(res, mkScheme, aggRng, shards, cs, msg)
 	})
 	return res
 }
@@ -460,6 +527,7 @@ func runLindell22Runner[
 	if n.OK() {
 		res.Partials = out
 		l22Aggregate(res, mkScheme, aggRng, shards[ids[0]], msg)
+		l22AggregateAll[SCH, VR, GE, S, M, KG, SG, VF](res, mkScheme, aggRng, shards, nil, msg)
 	}
 	return res
 }
